@@ -21,14 +21,17 @@ RULE = ("extract: every subset of size <= K of the 9 recognised keys + the look-
         "random larger dicts with random letter case and multi-valued keys. types/merge/fsq: exhaustive small key "
         "universes x orderings, then random. ltgroup: every sequence of <= N features over tags {a,b,ab} x kinds "
         "gene/transcript/CDS/other (every permutation of every record is itself in the scope), then random longer "
-        "records. gbperm: full LocusTagGenBankParser.parse() of a record against every/random permutations. "
+        "records. gbiotype: every sequence of <= 3 (4) transcript feature types on one locus through the real parser. "
+        "gbperm: full LocusTagGenBankParser.parse() of a record against every/random permutations. "
         "non-trivial = >= 2 recognised keys (extract), >= 1 type-like key (types), a shared key (merge), a kept and a "
         "dropped key (fsq), >= 2 features sharing a tag (ltgroup/gbperm); distinct = distinct operation lines")
 EXHAUSTIVE_NOTE = ""
 TRUSTED = ["Model/Qualifiers.lean is hand-written; tied to io/features/__init__.py, gff3/parser.py, genbank/parser.py "
            "by this run's correspondence",
-           "Gen.featureNameQualifiers / Gen.featureIdQualifiers are regenerated from the enums on every run; "
-           "Props.C18.gen_tables_match_documented_order fails to compile if a priority is reordered",
+           "every constant of the model is a Gen table regenerated from /repo on every run (priority enums, regex key "
+           "sets, FEATURE_TYPE_IDENTIFIERS, BioCantorQualifiers / BioCantorGFF3ReservedQualifiers, GenBank feature "
+           "enums); Props.C18.gen_tables_match_documented_order / type_identifiers_tie / reserved_terms_tie / "
+           "genbank_kinds_tie fail to compile if one of them changes against the documented values",
            "harness/shims.py (marshmallow / Biopython / vcf drift) for the GFF3 and GenBank parser imports",
            "Bio.SeqFeature / SeqRecord objects are built in memory (no GenBank text is read in this check)"]
 ASSUMPTIONS = ["qualifier keys and values are ASCII (str.upper/lower and re.IGNORECASE are modelled on ASCII)",
